@@ -156,6 +156,22 @@ func runC19(c *Ctx) {
 		c.Floor("C19.W3-streaming-and-buffering", 4)
 	}
 
+	// ---- W2b nothing is put on the wire before the first result or Close: the constructors of the writers commit
+	// no status (a flush or write there answers 200 before Close can answer not-found for an empty result set)
+	nCtor := 0
+	for _, f := range c.Funcs(rw) {
+		if f.Obj == nil || !f.Obj.Exported() || !strings.HasPrefix(f.SSA.Name(), "New") || f.SSA.Signature.Recv() != nil {
+			continue
+		}
+		nCtor++
+		var bad []string
+		for _, st := range c.CallsInl(f.SSA, Or(Invoke("http.Flusher.Flush"), Invoke("http.ResponseWriter.Write"), Invoke("http.ResponseWriter.WriteHeader"), Invoke("io.Writer.Write")), 2) {
+			bad = append(bad, abbreviate(st.X.Name)+" at "+c.pos(st.In.Pos()))
+		}
+		c.Check(len(bad) == 0, "C19.W2-constructors-commit-nothing", f.Name, f.SSA.Pos(), "the constructor neither writes nor flushes the HTTP response", "the constructor already writes or flushes the HTTP response ("+strings.Join(bad, "; ")+"): the status is committed as 200 before Close can report an empty result set as not-found")
+	}
+	c.Floor("C19.W2-constructors-commit-nothing", 2)
+
 	// ---- W4/W5 client ------------------------------------------------------------------------------
 	find := c.Func("find/client", "Client.Find")
 	if find == nil {
@@ -177,6 +193,14 @@ func runC19(c *Ctx) {
 			}
 		}
 		c.Check(okDec && okType, "C19.W4-same-body-type", find.Name+" › decodes model.FindResponse", find.SSA.Pos(), "the client decodes the body as model.FindResponse, the type the writer encodes", "client and writer do not use the same body type")
+		// the whole body is decoded: what is handed to the decoder is everything read from the response body itself
+		okWhole := false
+		for _, cs := range c.Calls(find.SSA, Call("find/model.UnmarshalFindResponse")) {
+			if m, ok := Match(Extract("0", Call("io.ReadAll", Bind("r"))), cs.X.Args[0]); ok {
+				_, okWhole = Match(Field("Body", Any()), m["r"])
+			}
+		}
+		c.Check(okWhole, "C19.W4-same-body-type", find.Name+" › decodes the whole body", find.SSA.Pos(), "the decoder receives io.ReadAll(resp.Body)", "the client does not decode everything read from the response body itself (limited, wrapped or partial read): a large result set written by the server is not read back")
 		// 404 => empty response, nil error
 		ok404 := false
 		for _, b := range find.SSA.Blocks {
@@ -214,7 +238,7 @@ func runC19(c *Ctx) {
 		}
 		c.Check(ok, "C19.W5-not-found-is-empty", fb.Name+" › skips not-found", fb.SSA.Pos(), "a 404 API error for one multihash is skipped", "batch lookup fails on a not-found element")
 	}
-	c.Floor("C19.W4-same-body-type", 2)
+	c.Floor("C19.W4-same-body-type", 3)
 	c.Floor("C19.W5-not-found-is-empty", 2)
 
 	// ---- W6 Accept header -------------------------------------------------------------------------------
